@@ -21,7 +21,8 @@ reg(Prop(
          'count is one subset, one row (left operand, right operand set), one tree (its expression text) or one history '
          '(its step sequence), hashed canonically.'
          ' A 300-enumerator enum in 8-, 32- and 64-bit words against std::bitset (set/get, init, ~, |, &, ^, ==, hash, is_subset_eq; members k and k+256).'
-         ' A construction route through object(array_type const &) from the storage array of another bitfield.',
+         ' A construction route through object(array_type const &) from the storage array of another bitfield.'
+         ' A construction route that passes truth values other than 0/1 (masked flag words) to set and operator[]=.',
     assumptions=COMMON_ASSUMPTIONS + [
         'enumerators are the values 0..size-1 of an enum that follows the fcppt.enum convention (fcppt_maximum)',
         'std::hash specialisation, underlying_value, the array constructor/accessor, proxy-to-proxy assignment and hash '
